@@ -440,6 +440,14 @@ pub struct Opts {
     pub single_line_unwrap: bool,
     /// text that can end up left of a list marker (inline prefixes / contents, tag-line leads, wrapper lines) is ASCII
     pub ascii_left: bool,
+    /// probability (percent) that a block tag shares its line with code
+    pub shared_pct: usize,
+    /// probability (percent, each) of the two straddling-child shapes in unwrap bodies
+    pub straddle_pct: usize,
+    /// probability (percent) that text follows a tag without a separating blank
+    pub adjacent_pct: usize,
+    /// probability (percent) that a word is replaced by a multi-byte one
+    pub multibyte_pct: usize,
 }
 
 impl Opts {
@@ -466,6 +474,10 @@ impl Opts {
             max_tag_indent_jitter: true,
             single_line_unwrap: false,
             ascii_left: false,
+            shared_pct: 20,
+            straddle_pct: 10,
+            adjacent_pct: 35,
+            multibyte_pct: 0,
         }
     }
 }
@@ -482,7 +494,13 @@ pub struct Gen<'a, 't> {
 
 impl<'a, 't> Gen<'a, 't> {
     fn word(&mut self) -> String {
-        let w = self.t.s(&self.words).to_string();
+        let mut w = self.t.s(&self.words).to_string();
+        if self.o.multibyte_pct > 0 && self.t.chance(self.o.multibyte_pct) {
+            let mb: Vec<&'static str> = self.words.iter().copied().filter(|x| !x.is_ascii()).collect();
+            if !mb.is_empty() {
+                w = self.t.s(&mb).to_string();
+            }
+        }
         if self.o.unique_lines && !self.t.chance(25) {
             self.next_line += 1;
             format!("{w} L{}", self.next_line)
@@ -502,6 +520,15 @@ impl<'a, 't> Gen<'a, 't> {
             format!("{w} L{}", self.next_line)
         } else {
             w
+        }
+    }
+    /// text placed directly after a tag: with or without a separating blank, possibly multi-byte
+    fn after_tag(&mut self) -> String {
+        let w = self.word();
+        if self.t.chance(self.o.adjacent_pct) {
+            w
+        } else {
+            format!(" {w}")
         }
     }
     fn indent(&mut self, level: usize) -> String {
@@ -602,7 +629,7 @@ impl<'a, 't> Gen<'a, 't> {
             1 => format!(" {} ", self.word_left()),
             _ => self.word_left(),
         };
-        let post = if self.t.chance(60) { format!(" {}", self.word()) } else { String::new() };
+        let post = if self.t.chance(60) { self.after_tag() } else { String::new() };
         Node::Inline { pre, elem, content, post }
     }
 
@@ -655,12 +682,12 @@ impl<'a, 't> Gen<'a, 't> {
         let close_indent = if self.o.ragged && self.t.chance(12) { self.indent(level) } else { indent.clone() };
         let (mut open_lead, mut open_trail, mut close_lead, mut close_trail) = (String::new(), String::new(), String::new(), String::new());
         let shared_ok = self.o.inline && (!elem.unwrap || self.o.unwrap_tags_shared);
-        if shared_ok && self.t.chance(20) {
+        if shared_ok && self.t.chance(self.o.shared_pct) {
             match self.t.below(4) {
                 0 => open_lead = format!("{} ", self.word_left()),
-                1 => open_trail = format!(" {}", self.word()),
+                1 => open_trail = self.after_tag(),
                 2 => close_lead = format!("{} ", self.word_left()),
-                _ => close_trail = format!(" {}", self.word()),
+                _ => close_trail = self.after_tag(),
             }
         } else if self.o.inline && self.t.chance(8) {
             // trailing blanks after a tag: still "alone on its line"
@@ -708,14 +735,27 @@ impl<'a, 't> Gen<'a, 't> {
             kids.push(Node::Block { indent: indent.to_string(), open_lead: "{ ".into(), elem, open_trail: String::new(), kids: inner, close_indent: indent.to_string(), close_lead: String::new(), close_trail: " }".into() });
             return kids;
         }
-        let straddle = if self.o.tags_on_wrappers && body >= 3 { self.t.below(10) } else { 9 };
+        let straddle = if self.o.tags_on_wrappers && body >= 3 {
+            let k = self.t.below(100);
+            if k < self.o.straddle_pct {
+                0
+            } else if k < 2 * self.o.straddle_pct {
+                1
+            } else {
+                9
+            }
+        } else {
+            9
+        };
         if straddle == 0 {
             // a block child whose opening tag sits on the opening wrapper line and which ends in the body
             let elem = self.elem(false);
             let n = self.t.below(3);
             let inner = self.nodes(level + 1, depth_left.saturating_sub(1), n, true);
             let w = self.t.s(&self.words).to_string();
-            kids.push(Node::Block { indent: indent.to_string(), open_lead: format!("{w} "), elem, open_trail: String::new(), kids: inner, close_indent: self.unit.repeat(level + 1), close_lead: String::new(), close_trail: String::new() });
+            let close_trail = if self.t.chance(50) { self.after_tag() } else { String::new() };
+            let close_lead = if self.t.chance(30) { format!("{} ", self.word()) } else { String::new() };
+            kids.push(Node::Block { indent: indent.to_string(), open_lead: format!("{w} "), elem, open_trail: String::new(), kids: inner, close_indent: self.unit.repeat(level + 1), close_lead, close_trail });
         } else {
             kids.push(self.wrapper_line(indent, true));
         }
@@ -725,7 +765,8 @@ impl<'a, 't> Gen<'a, 't> {
             let n = self.t.below(3);
             let inner = self.nodes(level + 1, depth_left.saturating_sub(1), n, true);
             let w = self.t.s(&self.words).to_string();
-            kids.push(Node::Block { indent: self.unit.repeat(level + 1), open_lead: String::new(), elem, open_trail: String::new(), kids: inner, close_indent: indent.to_string(), close_lead: String::new(), close_trail: format!(" {w}") });
+            let open_lead = if self.t.chance(50) { let x = self.word(); if self.t.chance(50) { x } else { format!("{x} ") } } else { String::new() };
+            kids.push(Node::Block { indent: self.unit.repeat(level + 1), open_lead, elem, open_trail: String::new(), kids: inner, close_indent: indent.to_string(), close_lead: String::new(), close_trail: format!(" {w}") });
             return kids;
         }
         if body >= 3 {
